@@ -71,13 +71,30 @@ func loadedField(v ssa.Value) (base ssa.Value, f *types.Var) {
 	case *ssa.UnOp:
 		if x.Op == token.MUL {
 			if fa, ok := x.X.(*ssa.FieldAddr); ok {
-				return fa.X, fieldOf(fa)
+				return outerBase(fa.X), fieldOf(fa)
 			}
 		}
 	case *ssa.Field:
 		return x.X, fieldOf(x)
 	}
 	return nil, nil
+}
+
+// outerBase: the object a field access starts from, looking through embedded helper structs (`cs.captureGate.blocked`
+// is a field of cs).
+func outerBase(v ssa.Value) ssa.Value {
+	for i := 0; i < 3; i++ {
+		fa, ok := v.(*ssa.FieldAddr)
+		if !ok {
+			return v
+		}
+		f := fieldOf(fa)
+		if f == nil || !f.Embedded() {
+			return v
+		}
+		v = fa.X
+	}
+	return v
 }
 
 // isFieldLoad reports whether v is a load of field `owner.name`.
@@ -165,7 +182,33 @@ func (p *Prog) isPkgType(t types.Type, name string) bool {
 	_, frozenN := frozenNamed[name]
 	if frozenS || frozenN {
 		if r := p.schema().typeOf[name]; r != nil {
-			return r.Obj() == n.Origin().Obj()
+			if r.Obj() == n.Origin().Obj() {
+				return true
+			}
+		}
+	}
+	// a new helper struct embedded in the named struct, holding fields that used to be its own, is part of it
+	// (`type clientState struct { captureGate; … }`: methods of captureGate are methods of clientState)
+	if frozenS {
+		if _, known := frozenSchema[n.Obj().Name()]; !known {
+			if outer := p.NamedType(name); outer != nil {
+				if ost, ok := outer.Underlying().(*types.Struct); ok {
+					for i := 0; i < ost.NumFields(); i++ {
+						e := ost.Field(i)
+						if e.Embedded() {
+							if en, ok := deref(e.Type()).(*types.Named); ok && en.Obj() == n.Obj() {
+								if est, ok := en.Underlying().(*types.Struct); ok {
+									for j := 0; j < est.NumFields(); j++ {
+										if p.promotedOwner(est.Field(j)) == name {
+											return true
+										}
+									}
+								}
+							}
+						}
+					}
+				}
+			}
 		}
 	}
 	return false
